@@ -42,10 +42,12 @@ else:
 lines += ["", "### 7.3 Independent seeded changes (`seeded/<id>/`)", "",
           "Each change was written by a fresh sub-agent that was given only the text of one property and its own scratch worktree.",
           "`confirmed` = re-verified here: the repository suite passes with the change (446 passed + 1 xpassed), DEMO.py exits 1 with and 0",
-          "without it. Checks were run with `VERIF_REPO=<worktree>`; nothing was applied to /repo.", "",
+          "without it. The checks were then run (quick tier, seed 0) against a scratch copy of the **current** /repo/src with patch.diff applied", "(`VERIF_REPO=<scratch>`; nothing is ever applied to /repo itself). Where a check missed a change at first, the strengthening is noted.", "",
           "| seed | property | files changed | confirmed | checks run -> verdict (tags) | what it needs to manifest |", "|---|---|---|---|---|---|"]
+notes = json.load(open(os.path.join(ROOT, "seeded", "notes.json"))) if os.path.exists(os.path.join(ROOT, "seeded", "notes.json")) else {}
 for mf in sorted(glob.glob(os.path.join(ROOT, "seeded", "*", "meta.json"))):
     m = json.load(open(mf))
+    m.update(notes.get(m["seed"], {}))
     cr = "; ".join("%s: %s %s" % (c, v["verdict"], ",".join(t.split("_", 1)[1] if "_" in t else t for t in v["tags"])) for c, v in m["checks_run"].items())
     hist = m.get("history", "")
     need = (m.get("needs_short") or m.get("needs_to_manifest", "")[:200]).replace("\n", " ").replace("|", "/")
